@@ -35,6 +35,8 @@ pub enum Mode {
     C13,
     C14,
     C17,
+    /// C08: sizes, offsets and counts at the 16/32-bit limits on the sparse disk
+    C08,
 }
 
 pub struct Roundtrip {
@@ -258,6 +260,7 @@ impl Scenario for Roundtrip {
             Mode::C13 => "append",
             Mode::C14 => "rawcopy",
             Mode::C17 => "align",
+            Mode::C08 => "zip64",
         }
     }
     fn total(&self, tier: Tier) -> u64 {
@@ -268,10 +271,17 @@ impl Scenario for Roundtrip {
             Mode::C13 => 25_000,
             Mode::C14 => 30_000,
             Mode::C17 => 50_000,
+            Mode::C08 => 1_200,
         };
         match tier {
             Tier::Quick => q,
-            Tier::Thorough => q * 40,
+            Tier::Thorough => {
+                if self.mode == Mode::C08 {
+                    q * 8
+                } else {
+                    q * 40
+                }
+            }
         }
     }
     fn rule(&self) -> &'static str {
@@ -439,6 +449,97 @@ impl Scenario for Roundtrip {
                 }
                 ops
             }
+            Mode::C08 => {
+                const G4: u64 = 1 << 32;
+                cfg.enc = false;
+                cfg.n_sources = 0;
+                cfg.max_content = 300;
+                cfg.max_entries = 3;
+                cfg.long_names = false;
+                cfg.comment_max = 100;
+                let slot = if tier == Tier::Quick { idx } else { idx % 600 };
+                let mut ops: Vec<Op> = vec![];
+                let big = |len: u64, large: bool, method: u16, r: &mut Rng| -> Vec<Op> {
+                    let split: Vec<u32> = if r.chance(1, 2) { vec![] } else { (0..6).map(|_| r.pickc(&[1u32 << 20, 65536, 1000_000, 4096])).collect() };
+                    vec![
+                        Op::StartFile { name: format!("big{len}"), o: Opts { method, large, ..Opts::default() } },
+                        Op::Write { c: Content::Sparse { len, seed: r.below(1000) }, split },
+                    ]
+                };
+                match slot {
+                    0..=7 => {
+                        // size thresholds x large flag
+                        let len = [G4 - 2, G4 - 1, G4, G4 + 1][(slot % 4) as usize];
+                        ops.extend(big(len, slot < 4, 0, &mut r));
+                        if r.chance(1, 2) {
+                            ops.push(Op::StartFile { name: "after".into(), o: Opts::default() });
+                            ops.push(Op::Write { c: Content::Lit(Hex(b"tail".to_vec())), split: vec![] });
+                        }
+                        start_pos = 0;
+                    }
+                    8..=12 => {
+                        let n = [65534u32, 65535, 65536, 65537, 70000][(slot - 8) as usize];
+                        ops.push(Op::Many { n, prefix: "e".into() });
+                        if r.chance(1, 2) {
+                            ops.push(Op::SetComment { c: Hex(b"many entries".to_vec()) });
+                        }
+                        start_pos = 0;
+                    }
+                    13 => {
+                        // a size exactly at the limit, at an offset beyond it (literal 0xFFFFFFFF next to a ZIP64 record)
+                        start_pos = G4 + 100;
+                        ops.extend(big(G4 - 1, true, 0, &mut r));
+                    }
+                    14 => {
+                        start_pos = G4 - 50;
+                        ops.extend(big(G4 - 1, true, 0, &mut r));
+                        ops.push(Op::StartFile { name: "after".into(), o: Opts::default() });
+                    }
+                    15 => {
+                        ops.push(Op::Many { n: 65535, prefix: "e".into() });
+                        ops.push(Op::Finish);
+                        ops.push(Op::Append);
+                        ops.push(Op::StartFile { name: "one more".into(), o: Opts::default() });
+                        ops.push(Op::Write { c: Content::Lit(Hex(b"x".to_vec())), split: vec![] });
+                        start_pos = 0;
+                    }
+                    16 => {
+                        ops.push(Op::Many { n: 65536, prefix: "e".into() });
+                        ops.push(Op::Append);
+                        ops.push(Op::Many { n: 3, prefix: "f".into() });
+                        start_pos = 0;
+                    }
+                    17 if tier == Tier::Thorough => {
+                        ops.extend(big(5 * (1 << 30), true, 0, &mut r));
+                        start_pos = 0;
+                    }
+                    18..=21 if tier == Tier::Thorough => {
+                        // compressing methods across the threshold (highly compressible: the compressed size stays small)
+                        let m = METHODS[(slot - 18) as usize];
+                        ops.extend(big(G4 + 1, true, m, &mut r));
+                        start_pos = 0;
+                    }
+                    _ => {
+                        // offset thresholds: the sink is pre-positioned so that header offsets, the directory
+                        // offset and the directory size land at 2^32-2 .. 2^32+1
+                        let d = match r.below(4) {
+                            0 => r.below(8),
+                            1 => r.below(120),
+                            _ => r.below(600),
+                        };
+                        start_pos = if r.chance(1, 8) { G4 + r.below(100) } else { G4 - d };
+                        ops = gen_program(&mut r, &cfg);
+                        if ops.is_empty() {
+                            ops.push(Op::StartFile { name: "a".into(), o: Opts::default() });
+                        }
+                        if r.chance(1, 5) {
+                            ops.push(Op::Append);
+                            ops.extend(gen_program(&mut r, &cfg));
+                        }
+                    }
+                }
+                ops
+            }
             _ => gen_program(&mut r, &cfg),
         };
         if self.mode == Mode::C02 && rs.chance(1, 12) {
@@ -471,7 +572,14 @@ impl Scenario for Roundtrip {
             // calls after finish
             ops.push(r.pick(&[Op::Finish, Op::Flush, Op::EndExtra, Op::Write { c: Content::Lit(Hex(b"z".to_vec())), split: vec![] }, Op::StartFile { name: "late".into(), o: Opts::default() }]).clone());
         }
-        let case = RtCase { ops, sources, sink: gen_policy_short(&mut rio), read: gen_policy_short(&mut rio), bufs: gen_bufs(&mut rio), start_pos, base };
+        let huge = ops.iter().any(|o| matches!(o, Op::Write { c, .. } if c.is_sparse()) || matches!(o, Op::Many { .. }));
+        let mut case = RtCase { ops, sources, sink: gen_policy_short(&mut rio), read: gen_policy_short(&mut rio), bufs: gen_bufs(&mut rio), start_pos, base };
+        if huge {
+            // byte-at-a-time schedules over 4 GiB / 70000 entries would take hours: whole transfers only
+            case.sink = Policy::Pure;
+            case.read = if rio.chance(1, 2) { Policy::Pure } else { Policy::BufLike { cap: 1 << 16 } };
+            case.bufs = vec![];
+        }
         serde_json::to_value(case).unwrap_or(Value::Null)
     }
 
@@ -542,6 +650,24 @@ impl Scenario for Roundtrip {
         }
         if !m.complete {
             ctx.probe("archive_not_expected_complete");
+            if self.mode == Mode::C08 {
+                // an over-long entry was refused: neither finish nor Drop may leave an archive that opens
+                // and reports wrapped sizes
+                for st in [&store_f, &store_d] {
+                    if let Ok(mut ar) = zip::ZipArchive::new(SimDisk::new(st.clone(), Policy::Pure)) {
+                        for (i, e) in m.entries.iter().enumerate() {
+                            if e.len() > 0xFFFF_FFFF {
+                                if let Ok(f) = ar.by_index_raw(i) {
+                                    if f.size() != e.len() {
+                                        return viol("C08/wrapped-sizes", format!("an entry of {} bytes not declared large was refused, yet the archive opens and reports {} bytes for it", e.len(), f.size()));
+                                    }
+                                }
+                            }
+                        }
+                    }
+                }
+                ctx.probe("oversize_entry_refused");
+            }
             return Verdict::Pass;
         }
         let img_f_len = len_of(&store_f);
@@ -561,7 +687,13 @@ impl Scenario for Roundtrip {
                 viol(class, detail)
             }
         };
-        if img_f_len < (256 << 20) {
+        if img_f_len >= (256 << 20) {
+            let da = store_f.lock().unwrap_or_else(|e| e.into_inner()).digest();
+            let db = store_d.lock().unwrap_or_else(|e| e.into_inner()).digest();
+            if da != db && owns(&prop, "C01/finish-drop-differ") {
+                return viol("C01/finish-drop-differ", "finish() and drop images differ (sparse image digests)".to_string());
+            }
+        } else {
             let a = image_of(&store_f);
             let b = image_of(&store_d);
             if a != b {
